@@ -32,7 +32,7 @@ import (
 )
 
 // AdvPlays are the ways the adversary "authenticates" the COMMITs it attributes to honest members.
-var AdvPlays = []string{"signature-copied-from-a-verified-message", "signed-with-the-adversarys-own-key", "zero-signature", "honest-prepare-replayed-with-forged-justification", "own-commit-repeated"}
+var AdvPlays = []string{"signature-copied-from-a-verified-message", "signed-with-the-adversarys-own-key", "zero-signature", "honest-prepare-replayed-with-forged-justification", "own-commit-repeated", "genuine-commits-of-an-earlier-duty-of-the-same-type"}
 
 func hashProtoIndep(m proto.Message) [32]byte {
 	b, err := proto.MarshalOptions{Deterministic: true}.Marshal(m)
@@ -79,6 +79,18 @@ type AdvWorld struct {
 	leader   int
 	seenPP   chan struct{}
 	ppOnce   *sync.Once
+
+	// genuine COMMIT messages (distinct honest sources) of the last decided duty per duty type, with that
+	// duty's proto and value: what a member that saw the earlier duty can replay into a later one
+	prev map[core.DutyType]*prevDuty
+}
+
+type prevDuty struct {
+	dutyPB  *pbv1.Duty
+	commits []*pbv1.QBFTMsg
+	values  []*anypb.Any
+	hash    []byte
+	label   string
 }
 
 // NewAdv builds the cluster. Members 0..2 are real components, member 3 is the harness.
@@ -87,7 +99,7 @@ func NewAdv(t testingTB, b *Beacon) (*AdvWorld, error) {
 	if err != nil {
 		return nil, err
 	}
-	aw := &AdvWorld{World: w, advKey: keys[3], ids: ids, adv: 3}
+	aw := &AdvWorld{World: w, advKey: keys[3], ids: ids, adv: 3, prev: map[core.DutyType]*prevDuty{}}
 	// the adversary's host accepts (and ignores) consensus traffic
 	w.Net.Host(ids[3]).SetStreamHandler(protocols.QBFTv2ProtocolID, func(s network.Stream) { _ = s.Close() })
 	idx := map[peer.ID]int{}
@@ -151,6 +163,7 @@ type AdvResult struct {
 	OthersGotA bool // both other honest members decided the leader's value with the adversary's genuine votes
 	Sent       []string
 	TimedOut   bool
+	Label      string // every honest proposal of this duty is Label + "/A-<member>"
 }
 
 func (aw *AdvWorld) send(to int, m *pbv1.QBFTConsensusMsg) {
@@ -160,7 +173,7 @@ func (aw *AdvWorld) send(to int, m *pbv1.QBFTConsensusMsg) {
 // RunAdvDuty runs one duty under the given play.
 func (aw *AdvWorld) RunAdvDuty(b *Beacon, rng *rand.Rand, play, label string) *AdvResult {
 	w := aw.World
-	types := []core.DutyType{core.DutyAttester, core.DutyProposer, core.DutyRandao, core.DutySyncMessage, core.DutyPrepareAggregator, core.DutyPrepareSyncContribution}
+	types := []core.DutyType{core.DutyAttester, core.DutyProposer, core.DutySyncMessage} // few types: a type recurs with another slot
 	var duty core.Duty
 	leader := aw.adv
 	for leader == aw.adv { // a duty whose round-1 leader is honest
@@ -175,7 +188,7 @@ func (aw *AdvWorld) RunAdvDuty(b *Beacon, rng *rand.Rand, play, label string) *A
 	for victim == aw.adv || victim == leader {
 		victim = (victim + 1) % 4
 	}
-	res := &AdvResult{Duty: duty, Play: play, Victim: victim, Leader: leader, Decisions: map[int][]Decision{}}
+	res := &AdvResult{Duty: duty, Play: play, Victim: victim, Leader: leader, Decisions: map[int][]Decision{}, Label: label}
 	aw.mu.Lock()
 	aw.duty, aw.victim, aw.leader, aw.recorded, aw.froms = duty, victim, leader, nil, nil
 	aw.seenPP, aw.ppOnce = make(chan struct{}), new(sync.Once)
@@ -250,7 +263,17 @@ func (aw *AdvWorld) RunAdvDuty(b *Beacon, rng *rand.Rand, play, label string) *A
 
 			return m
 		}
+		if play == "genuine-commits-of-an-earlier-duty-of-the-same-type" && aw.prev[duty.Type] == nil {
+			play = "signature-copied-from-a-verified-message" // nothing to replay yet
+			res.Play = play
+		}
 		switch play {
+		case "genuine-commits-of-an-earlier-duty-of-the-same-type":
+			pd := aw.prev[duty.Type]
+			own := signIndep(&pbv1.QBFTMsg{Type: 3, Duty: pd.dutyPB, PeerIdx: int64(aw.adv), Round: 1, ValueHash: pd.hash, PreparedValueHash: zero}, aw.advKey)
+			just := append(append([]*pbv1.QBFTMsg(nil), pd.commits...), own)
+			aw.send(victim, &pbv1.QBFTConsensusMsg{Msg: mk(5, aw.adv, pd.hash, aw.advKey), Justification: just, Values: pd.values})
+			note("DECIDED for the value %s decided in the earlier duty %d/%d to %d, backed by %d genuine COMMITs of that duty and the adversary's own", pd.label, pd.dutyPB.GetSlot(), pd.dutyPB.GetType(), victim, len(pd.commits))
 		case "honest-prepare-replayed-with-forged-justification":
 			// genuine PREPAREs of honest members (seen on the wire) re-sent with a forged COMMIT(B) attributed to their author
 			aw.mu.Lock()
@@ -321,6 +344,23 @@ func (aw *AdvWorld) RunAdvDuty(b *Beacon, rng *rand.Rand, play, label string) *A
 		}
 	}
 	res.OthersGotA = got >= 2
+	// remember this duty's genuine COMMITs of two honest members for a later duty of the same type
+	if pp != nil {
+		aw.mu.Lock()
+		pd := &prevDuty{dutyPB: pp.GetMsg().GetDuty(), values: pp.GetValues(), hash: pp.GetMsg().GetValueHash(), label: label + "/A"}
+		seen := map[int64]bool{}
+		for i, m := range aw.recorded {
+			q := m.GetMsg()
+			if q.GetType() == 3 && aw.froms[i] != aw.adv && !seen[q.GetPeerIdx()] && string(q.GetValueHash()) == string(pd.hash) && len(pd.commits) < 2 {
+				seen[q.GetPeerIdx()] = true
+				pd.commits = append(pd.commits, proto.Clone(q).(*pbv1.QBFTMsg))
+			}
+		}
+		if len(pd.commits) == 2 {
+			aw.prev[duty.Type] = pd
+		}
+		aw.mu.Unlock()
+	}
 
 	return res
 }
@@ -347,11 +387,12 @@ func (r *AdvResult) CheckAdv() []Finding {
 // quorum of distinct members committed.
 func (r *AdvResult) CheckAdvValidity() []Finding {
 	var out []Finding
+	want := r.Label + "/A-"
 	for i, ds := range r.Decisions {
 		for _, d := range ds {
-			if len(d.Value) > 19 && d.Value[len(d.Value)-19:] == "/B-by-the-adversary" {
+			if len(d.Value) < len(want) || d.Value[:len(want)] != want {
 				out = append(out, Finding{"consensus-component/validity/decided-a-value-no-leader-proposed/byzantine-member-forged-decision/" + r.Play,
-					fmt.Sprintf("duty %v: member %d was handed %q, a value only the Byzantine member (not a leader) ever sent, backed by COMMITs that the members they are attributed to never made (%s)", r.Duty, i, d.Value, r.Play)})
+					fmt.Sprintf("duty %v: member %d was handed %q, which no member proposed for this duty (honest proposals are %q…): only the Byzantine member (not a leader) sent it, backed by COMMITs that were never made for this duty by the members they are attributed to (%s)", r.Duty, i, d.Value, want, r.Play)})
 			}
 		}
 	}
